@@ -300,6 +300,13 @@ package leveldb
 //@   props C09 C18
 //@   touches held(db.writeLockC)
 //@   ensures [parked] result == nil ==> held(db.writeLockC) == old(held(db.writeLockC)) + 1
+// (a SetReadOnly that took the write lock and then finds the DB closing must not leave with it: the error goroutine
+// releases a parked lock on close only in its persistent-error state, which it will not reach any more; Close then
+// waits for the lock forever. Known finding F11.)
+//@   at before stmt return ErrClosed#1
+//@     assert [C09:closing-db-found-before-the-write-lock-was-taken-leaves-it-free] held(db.writeLockC) == old(held(db.writeLockC))
+//@   at before stmt return ErrClosed#2
+//@     assert [C09:closing-db-found-after-the-write-lock-was-taken-gives-it-back] held(db.writeLockC) == old(held(db.writeLockC))
 
 // compactionError is the background goroutine that owns the error state; in its persistent-error state it
 // takes the write lock and parks it in db.compWriteLocking until close.
